@@ -113,3 +113,23 @@ Theorem C05_counterparty_is_the_sources :
   forall p k, GenDecide.gen_OtherParty p k = other_party p k.
 Proof. exact DecideEq.other_party_is_source. Qed.
 Print Assumptions C05_counterparty_is_the_sources.
+
+From DT Require GenHandlers HandlerEq.
+
+(* the checks an incoming restart request must pass (Node.validate_restart_request: channel known and not
+   terminated, sender is its initiator, same base CID, voucher present, same voucher type and voucher) are
+   those of impl/restart.go validateRestartRequest, regenerated on every run: the generated program returns
+   an error exactly when the model's says "not ok", and leaves the same state *)
+Theorem C05_restart_request_checks_are_the_sources : forall from k m s,
+  Node.ret_ok (fst (Node.run (GenHandlers.gen_validateRestartRequest from k m) s)) = fst (Node.run (Node.validate_restart_request from k m) s) /\
+  snd (Node.run (GenHandlers.gen_validateRestartRequest from k m) s) = snd (Node.run (Node.validate_restart_request from k m) s).
+Proof. exact HandlerEq.validate_restart_request_is_source. Qed.
+Print Assumptions C05_restart_request_checks_are_the_sources.
+
+(* only the initiator sends vouchers, only the responder voucher results: the programs with these role
+   checks run like the ones regenerated from impl/impl.go SendVoucher / SendVoucherResult *)
+Theorem C05_voucher_handlers_are_the_sources : forall k v,
+  HandlerEq.runs_like (HandlerEq.with_self (fun self => GenHandlers.gen_SendVoucher self k v)) (Node.send_voucher k v) /\
+  HandlerEq.runs_like (HandlerEq.with_self (fun self => GenHandlers.gen_SendVoucherResult self k v)) (Node.send_voucher_result k v).
+Proof. exact HandlerEq.voucher_handlers_are_source. Qed.
+Print Assumptions C05_voucher_handlers_are_the_sources.
